@@ -90,6 +90,50 @@ func HostileValues(r *core.Rng, src []byte, nops int) ([]byte, string, bool) {
 		return b, "", false
 	}
 	desc := "hostile:"
+	if mode := r.Intn(8); mode < 4 {
+		// the same hostile rewrite applied to every value of one class at once: whichever of them
+		// the reader interprets arithmetically or as a date meets it in this one input
+		ext := []uint32{0, 1, 0xffffffff, 0x80000000, 0x7fffffff, 0x80000001}
+		pair := hostilePairs[r.Intn(len(hostilePairs))]
+		grp := []int{0, 2, 5, 8, 11, 14, 17}[r.Intn(7)]
+		sub := r.Intn(4)
+		for _, v := range vals {
+			switch {
+			case mode == 0 && (v.typ == 5 || v.typ == 10): // every denominator zero, numerators kept non-zero
+				for e := 0; e < v.cnt; e++ {
+					at := v.off + 8*e
+					if sub >= 2 && e != v.cnt-1 {
+						continue // only the last element (seconds of a coordinate or time stamp)
+					}
+					if v.order.Uint32(b[at:]) == 0 || sub%2 == 1 {
+						v.order.PutUint32(b[at:], uint32(1+e))
+					}
+					v.order.PutUint32(b[at+4:], 0)
+				}
+			case mode == 1 && (v.typ == 5 || v.typ == 10): // extremes in every rational
+				for e := 0; e < v.cnt; e++ {
+					at := v.off + 8*e
+					v.order.PutUint32(b[at:], ext[(e+sub)%len(ext)])
+					v.order.PutUint32(b[at+4:], ext[(e+sub+1+grp)%len(ext)])
+				}
+			case mode == 2 && v.typ == 2 && v.cnt >= 10 && v.cnt <= 21: // one group of every date-like text
+				if grp+2 <= v.cnt {
+					copy(b[v.off+grp:], pair)
+				}
+			case mode == 3 && (v.typ == 3 || v.typ == 4 || v.typ == 8 || v.typ == 9) && v.tag != 0x8769 && v.tag != 0x8825 && v.tag != 0x014a:
+				w := typeSize[v.typ]
+				x := specials[(int(v.tag)+sub)%len(specials)]
+				for e := 0; e < v.cnt; e++ {
+					if w == 2 {
+						v.order.PutUint16(b[v.off+2*e:], uint16(x))
+					} else {
+						v.order.PutUint32(b[v.off+4*e:], uint32(x))
+					}
+				}
+			}
+		}
+		return b, fmt.Sprintf("hostile:all mode=%d sub=%d pair=%q group=%d", mode, sub, pair, grp), true
+	}
 	for k := 0; k < nops; k++ {
 		v := vals[r.Intn(len(vals))]
 		if r.Chance(1, 2) {
